@@ -164,7 +164,11 @@ pub fn write_fault_sweep(ctx: &Ctx, f: &dyn Fmt, rf: &Reference) -> R {
                 bail_v!(ctx, "not_a_prefix", &format!("{name}.writer/prefix"), "sink failing at call {k} holds {} bytes that are not a prefix of the fault-free output (first difference at {})", before.len(), first_diff(before, &rf.bytes));
             }
         }
+        if fired && !w.api_ok && post == Post::IntoInner && matches!(w.failed_call, Some("write" | "flush")) {
+            ctx.probe("finish_attempted_after_failed_write");
+        }
         if w.finish_ok_after_error && fired {
+            ctx.probe("finish_ok_after_failed_write");
             // the caller went on to finish after an error and the writer reported success: then the sink must hold a
             // readable file / stream with (at least) every batch whose write() had returned Ok, and nothing that was not written
             let left = Arc::new(f.normalise(ctx, st.data.clone()));
